@@ -155,37 +155,43 @@ def bookkeeping_table(ctx, key, rid, fields):
     rights = sorted(n for n in fields if "lost" in n)
     if len(rights) != 4:
         return None, f, "four rights-lost fields (found %s)" % rights
-    try:
-        pes = returning_paths(f, limit=50000)
-    except (NotLoopFree, OverflowError) as e:
-        return None, f, "not loop-free / too many paths (%s)" % e
-
-    def pred_name(t):
-        if t[0] == "call" and t[1] in pred_of and pred_of[t[1]] in rights:
-            return pred_of[t[1]]
-        if t[0] == "call" and t[1] in getter_of and getter_of[t[1]] in rights:
-            return getter_of[t[1]]
+    # decision table over the move's bits (inkalint/semtable.py): the four rights-lost flags in all 16 combinations,
+    # with and without the castle-move mark; getters and predicates of Move are resolved to expressions over the bits
+    from ..semtable import explore, evaluate, TooBig, NeedVar, Opaque
+    from ..slice import Slicer
+    from ..expr import Inliner
+    masks = [fields[n]["mask"] for n in rights]
+    extra = [v["mask"] for n, v in fields.items() if "castle_move" in n][:1]
+    dom = []
+    for assign in product((0, 1), repeat=4):
+        v = sum(m for m, on in zip(masks, assign) if on)
+        dom.append(v)
+        for e in extra:
+            dom.append(v | (e & -e))
+    def var_of(t):
+        if t[0] == "f" and t[2] == "bits":
+            return "bits"
         return None
+    seeds = []
+    for bi, blk in enumerate(f["blocks"]):
+        for st in blk["stmts"]:
+            d = st["dst"]
+            if d is not None and d["p"] and isinstance(d["p"][-1], dict) and str(d["p"][-1].get("name", "")).endswith("_castle"):
+                seeds.append(bi)
+    if not seeds:
+        return None, f, "assignments to the castling-right flags in %s" % f["display"]
+    sl = Slicer(f)
+    sl.backward([], seeds)
+    inl = Inliner(prog, only=lambda k: k.startswith(MF.MOVE))
+    try:
+        lvs = explore(f, var_of, {"bits": dom}, inliner=inl, relevant=set(sl.last_blocks), max_leaves=20000)
+    except TooBig as e:
+        return None, f, "decision table of %s (%s)" % (f["display"], e)
     table = {}
-    problems = []
-    for pe in pes:
-        known = {}
-        for (d, c, b, ty) in pe.conds:
-            n = pred_name(d)
-            if n is None and d[0] == "bin" and d[1] in ("Ne", "Eq"):
-                # get_x() != 0
-                for side in (d[2], d[3]):
-                    if pred_name(side):
-                        n = pred_name(side)
-                        truth = (c != ("in", (0,)))
-                        known[n] = truth if d[1] == "Ne" else not truth
-                        n = None
-                continue
-            if n is not None:
-                known[n] = c != ("in", (0,))
-        # final writes to *_castle fields on this path
+    problems, opaque = [], []
+    for lf in lvs:
         eff = {}
-        for place, val, b in pe.writes:
+        for place, val, b in lf.pe.writes:
             if place[0] == "f" and place[2].endswith("_castle"):
                 owner = place[1]
                 role = None
@@ -193,32 +199,33 @@ def bookkeeping_table(ctx, key, rid, fields):
                     if x[0] == "f" and x[1][0] == "call" and x[1][1].endswith("get_active_and_passive_mut"):
                         role = x[2]
                 eff[(role, place[2])] = (place, val)
-        for assign in product((False, True), repeat=4):
-            a = dict(zip(rights, assign))
-            if any(a[n] != v for n, v in known.items()):
+        for bits in ([lf.env["bits"]] if "bits" in lf.env else dom):
+            if bits not in dom[::(2 if extra else 1)] and "bits" not in lf.env:
                 continue
+            assign = tuple(bool(bits & m) for m in masks)
             row = {}
             for (role, flag), (place, val) in eff.items():
                 res = []
                 for old in (0, 1):
-                    env = {place: old}
-                    m = {}
-                    for x in leaves(val):
-                        n = pred_name(x)
-                        if n is not None:
-                            m[x] = ("c", int(a[n]), "bool", None)
-                    v2 = subst(val, m) if m else val
+                    def vo(t, place=place):
+                        if t == place:
+                            return "old"
+                        return var_of(t)
                     try:
-                        res.append(fold(v2, env) & 1)
-                    except Unfoldable:
+                        res.append(evaluate(val, vo, {"bits": bits, "old": old}) & 1)
+                    except (Opaque, NeedVar):
                         res.append(None)
                 row[(role, flag)] = {(0, 0): "set-false", (1, 1): "set-true", (0, 1): "unchanged"}.get(tuple(res), "other:%s" % (res,))
             key_a = tuple(assign)
             if key_a in table and table[key_a] != row:
-                problems.append("the effect on the castling rights for predicate values %s depends on something else: %s vs %s" % (a, table[key_a], row))
+                a = dict(zip(rights, assign))
+                msg = "the effect on the castling rights for predicate values %s depends on something else: %s vs %s" % (a, table[key_a], row)
+                (opaque if lf.opaque else problems).append(msg)
             table.setdefault(key_a, row)
     if len(table) != 16:
         problems.append("only %d of 16 predicate assignments are covered by paths" % len(table))
+    if opaque and not problems:
+        return None, f, "castling-right bookkeeping of %s under a condition the table cannot evaluate" % f["display"]
     return (rights, table, problems), f, None
 
 
